@@ -1,6 +1,6 @@
 """C07 - each user's reward is their weight share per epoch, however claims are scheduled (structural part)."""
 import re
-from rules.common import (PredTrue, where, flat_atoms, all_origins, exact_origins, ops_of, show, origin_match, field_val)
+from rules.common import (opmap, PredTrue, where, flat_atoms, all_origins, exact_origins, ops_of, show, origin_match, field_val)
 from base import CutPolicy
 from absint import EMPTY, V, vfield, tagvals, const_of
 
@@ -78,7 +78,7 @@ def run(W, chk):
     # ---- emission window
     E = W.run_fn("farm_manager::farm::commands::compute_farm_emissions")
     until = vfield(E.ret, "1") if E.ret is not None else EMPTY
-    m = {o: ops for (o, ops) in flat_atoms(until)}
+    m = opmap(until)
     want = {"farm.preliminary_end_epoch": frozenset(["sub", "sub:l"]), "Const(1_u64)": frozenset(["sub", "sub:r"]), "current_epoch_id": frozenset()}
     chk.expect(m == want, "PROV-emission-window", "until", "emissions until min(until, end - 1)", "emission window end <- %s" % {k: sorted(v) for k, v in m.items()}, E.entry)
     gl = [e for e in E.switches() if any(isinstance(a[0], tuple) and a[0][1] == "le" and exact_origins(a[0][2]) == {"farm.preliminary_end_epoch"}
